@@ -525,6 +525,18 @@ func init() {
 				both(s)
 				both("[" + s + "] | .[0]")
 			}
+			// every term head x every suffix spelling x separation (glued / one space): the printer has to keep apart
+			// tokens that would fuse (`. .a` / `..a`, `0 .a` / `0.a`, `. ."a"` / `.."a"`), suffix chains included
+			heads := []string{".", "..", "0", "1.5", "1e3", "10", "-1", "\"s\"", "\"s\\(1)\"", "$x", ".a", ".\"a\"", "[1]", "{}", "{a: 1}", "(1)", ".[0]", "f", "f(1)", "$__loc__", "@base64", "@json \"x\"", "null", "true", "false", ".[]", ".[1:]", "-.", "(.)", "..?", "try 1", "if 1 then 2 end", "reduce 1 as $y (0; .)", "label $l | 1", "break $l", ". as $y | $y", "def g: 1; g"}
+			sufs := []string{".a", ".\"a\"", ".\"a\\(1)\"", ".[0]", "[0]", ".[]", "[]", "?", ".a?", ".\"a\"?", "[1:]", ".[1:]", ".[\"a\"]", "[\"a\"]", ".a.b", ".\"a\".\"b\"", ".a[0]", "[0].a", "[0]?", ".[:1]", "..", ". .a", ".and", ".if", ".\"$x\"", ".__loc__", "[.a]", "[-1]", "[1.5]", ".a?.b?", "??", "[]?", ".[\"a\", \"b\"]"}
+			for _, h := range heads {
+				for _, s1 := range sufs {
+					for _, sep := range []string{"", " "} {
+						both(h + sep + s1)
+						both("[" + h + sep + s1 + sep + sufs[(len(h)+len(s1))%len(sufs)] + "]")
+					}
+				}
+			}
 			if b, err := os.ReadFile("/repo/builtin.jq"); err == nil {
 				both(string(b))
 				for _, l := range strings.Split(string(b), "\n") {
